@@ -24,9 +24,9 @@ def consts(n, cap, totals, cancel="FALSE", fail="NoFail", allorders="TRUE", quir
             "FailAt": f"<- {fail}", "AllOrders": allorders, "Quirks": quirks}
 
 
-def model(ctx, c, liveness=True, workers=10, timeout=1500):
+def model(ctx, c, liveness=True, workers=10, timeout=1500, props=None):
     cfg = ctx.path("mtg.cfg")
-    stgraph.write_cfg(cfg, c, "Spec", INV, ["Terminates"] if liveness else [])
+    stgraph.write_cfg(cfg, c, "Spec", INV, props if props is not None else (["Terminates"] if liveness else []))
     r = vlib.tlc(ctx, "MC_MTGraph", cfg, workers=workers, timeout=timeout, xmx="24g")
     if r.violated or not r.ok:
         raise vlib.ToolError(f"MTGraph.tla violates {r.violated}:\n{r.out[-2500:]}")
@@ -135,6 +135,13 @@ def random_configs(ctx, ns, caps, seeds, cancel=False, fails=False):
                             k += 1
                             out.append({"n": n, "cap": cap, "total": total, "order": list(order), "fail": fail,
                                         "cancel": canc, "seed": ctx.seed * 100003 + k})
+            if cancel:
+                # infinite source, ended by the canceller thread at a random point
+                for order in orders:
+                    for s in range(2 * seeds + 2):
+                        k += 1
+                        out.append({"n": n, "cap": cap, "total": -1, "order": list(order), "fail": [0, 0],
+                                    "cancel": True, "seed": ctx.seed * 100003 + k})
     return out
 
 
@@ -187,6 +194,14 @@ def run(ctx):
         st_file, st_cap = stgraph.run_c07_st(ctx)
         # --- multithreaded runner
         model(ctx, consts(2, 2, [0, 1, 3], cancel="TRUE", fail="FailSmall"))
+        # infinite source: the run ends only by cancellation, and then it must end
+        cinf = consts(2, 2, [], cancel="TRUE")
+        cinf["Totals"] = "<- TotalsInf"
+        model(ctx, cinf, props=["CancelStops"])
+        if ctx.thorough():
+            cinf3 = consts(3, 1, [], cancel="TRUE", allorders="FALSE")
+            cinf3["Totals"] = "<- TotalsInf"
+            model(ctx, cinf3, props=["CancelStops"], timeout=2400)
         if ctx.thorough():
             model(ctx, consts(3, 2, [0, 2], cancel="TRUE", fail="FailSmall", allorders="FALSE"), timeout=2400)
             files = cover_replay(ctx, 2, 2, [0, 1, 3], "TRUE", "FailSmall")
